@@ -43,6 +43,8 @@ def schedules(draw):
             return float(draw(st.integers(1, max(1, int(tf / tstep) - 1))) * tstep)
         if cls == 'offgrid':
             return float(round(draw(st.floats(0.01, tf - 0.01)), 4))
+        if cls == 'fullprec':       # a time with all its binary digits (a user computing 5/6 or k/30 + delay)
+            return float(draw(st.floats(0.01, tf - 0.01)))
         if cls == 't0':
             return 0.0
         if cls == 'tf':
@@ -59,11 +61,11 @@ def schedules(draw):
             return float(draw(st.sampled_from(bounds)) + draw(st.sampled_from([-1e-4, 1e-4])))
         raise ValueError(cls)
 
-    classes = ['grid', 'offgrid', 'offgrid', 'offgrid', 't0', 'tf', 'beyond', 'negative', 'late', 'boundary', 'near_boundary']
+    classes = ['grid', 'offgrid', 'offgrid', 'fullprec', 'fullprec', 't0', 'tf', 'beyond', 'negative', 'late', 'boundary', 'near_boundary']
     for k in range(n):
         cls = draw(st.sampled_from(classes))
         t = time_of(cls)
-        kind = draw(st.sampled_from(['toggle_line', 'toggle_line', 'toggle_pq', 'alter', 'alter', 'fault']))
+        kind = draw(st.sampled_from(['toggle_line', 'toggle_line', 'toggle_pq', 'alter', 'alter', 'fault', 'timeseries']))
         u = draw(st.sampled_from([1, 1, 1, 0]))
         ev = dict(kind=kind, t=t, cls=cls, u=u, sel=draw(st.integers(0, 60)))
         if kind == 'alter':
@@ -72,6 +74,8 @@ def schedules(draw):
             ev['amount'] = draw(st.sampled_from([0.5, 1.1, 0.01, 2.0]))
         if kind == 'fault':
             ev['dur'] = draw(st.sampled_from([None, 0.02, 0.05]))
+        if kind == 'timeseries':
+            ev['amount'] = draw(st.sampled_from([0.05, 0.11, 0.3]))
         events.append(ev)
         pair = draw(st.sampled_from(['none', 'none', 'coincident', 'near', 'reclose']))
         if pair != 'none' and kind.startswith('toggle') and len(events) < 7:
@@ -106,11 +110,25 @@ def materialise(ss, c):
                 rec.update(model='PQ', dev=pqs[e['sel'] % len(pqs)], field='p0')
             elif e['target'] == 'line_b':
                 rec.update(model='Line', dev=lines[e['sel'] % len(lines)], field='b')
+            elif e['target'] == 'gen_M' and (ss.GENROU.n or ss.GENCLS.n):
+                gm = 'GENROU' if ss.GENROU.n else 'GENCLS'
+                gidx = list(ss.models[gm].idx.v)
+                rec.update(model=gm, dev=gidx[e['sel'] % len(gidx)], field='M')
             else:
                 rec.update(model='Line', dev=lines[e['sel'] % len(lines)], field='x')
             ss.add('Alter', dict(idx='VA%d' % k, model=rec['model'], dev=rec['dev'], src=rec['field'], attr='v',
                                  method=e['method'], amount=e['amount'], t=e['t'], u=e['u']))
             rec.update(evmodel='Alter', evidx='VA%d' % k, timer='t')
+        elif e['kind'] == 'timeseries':
+            # a time-series update: one exact-time stamp that sets the (static) active power datum of a load
+            from .. import sandbox
+            dev = pqs[e['sel'] % len(pqs)]
+            tsf = os.path.join(sandbox.scratch_dir('c06ts'), 'ts-%d-%d.csv' % (os.getpid(), k))
+            with open(tsf, 'w') as fh:
+                fh.write('t,val\n%r,%r\n' % (float(e['t']), float(e['amount'])))
+            ss.add('TimeSeries', dict(idx='VS%d' % k, mode=1, path=tsf, sheet='data', fields='val', tkey='t', model='PQ', dev=dev,
+                                      dests='p0', u=e['u']))
+            rec.update(model='PQ', dev=dev, field='p0', evmodel='TimeSeries', evidx='VS%d' % k, timer='t', method='=', amount=float(e['amount']))
         elif e['kind'] == 'fault':
             bus = buses[e['sel'] % len(buses)]
             d = dict(idx='VF%d' % k, bus=bus, tf=e['t'], u=e['u'], xf=0.2)
@@ -150,6 +168,9 @@ def run_schedule(ctx, c):
                                 timer='t', cls='own'))
     if not ss.setup():
         raise RuntimeError('setup failed')
+    for r in recs:
+        if r.get('evmodel') == 'TimeSeries':
+            r['t'] = float(ss.TimeSeries._data[r['evidx']]['t'].iloc[0])
     if not ss.PFlow.run():
         ctx.count('skip:pflow_failed')
         return
@@ -221,6 +242,12 @@ def run_schedule(ctx, c):
             in_range = (0.0 < te <= t_end) and (ok or te < t_end)
             at_t0 = te == 0.0
             sig = dict(time_class=r['cls'].split('+')[0], kind=r['kind'], segments=len(c['bounds']) > 1)
+            if r['evmodel'] == 'TimeSeries':
+                # no timer callback to observe: the stamp, the no-crossing rule and the value time line below decide
+                if in_range and te not in stamps:
+                    ctx.fail('event_time_not_a_stamp', dict(schedule=brief, event=_ev(r), t_e=te), sig=sig)
+                ncheck += 1 if in_range else 0
+                continue
             if in_range:
                 exact = [f for f in hits if f['t'] == te]
                 if len(exact) != 1 or len(hits) != 1:
@@ -254,6 +281,8 @@ def run_schedule(ctx, c):
             expect[key] = 1.0 - expect[key]
         elif r['evmodel'] == 'Alter':
             expect[key] = apply_method(expect[key], r['method'], r['amount'])
+        elif r['evmodel'] == 'TimeSeries':
+            expect[key] = r['amount']
         elif r['evmodel'] == 'Fault':
             expect[key] = 1.0 if timer == 'tf' else 0.0
         changes.setdefault(key, []).append(te)
@@ -297,6 +326,16 @@ def camp_events(ctx):
         ctx.evaluated()
         run_schedule(ctx, c)
     quick = ctx.tier == 'quick'
+    if ctx.shard == 0:
+        # anchor: every event kind once at a time beyond 10 s (float spacing there exceeds the resolution used near 0)
+        c = dict(base=BASES[0], tstep=1 / 30, fixt=1, tf=10.6, bounds=[10.6],
+                 events=[dict(kind='timeseries', t=10.3123, cls='late', u=1, sel=1, amount=0.11),
+                         dict(kind='alter', t=10.2071, cls='late', u=1, sel=2, target='line_b', method='*', amount=1.1),
+                         dict(kind='toggle_pq', t=10.4517, cls='late', u=1, sel=0),
+                         dict(kind='timeseries', t=10.5, cls='late', u=0, sel=3, amount=0.3)])
+        ctx.current_case = c
+        ctx.count('anchor:late_events')
+        body(c)
     drive(ctx, schedules(), body, 10 if quick else 250, name='events', chunk=10, budget_s=170 if quick else 1500)
 
 
